@@ -465,3 +465,6 @@ def run(repo: Repo, rep: Report, tier: str) -> None:
 
     rebuild_fold_rule(repo, rep, "C17.R17")
     text_array_fold_rule(repo, rep, "C17.R18")
+    from .c13 import parser_fold_rule
+
+    parser_fold_rule(repo, rep, "C17.R19")
